@@ -461,7 +461,7 @@ func init() {
 					t := tasks[start+i]
 					var r c12Result
 					if err != nil {
-						r.Viol = []string{"worker crashed: " + err.Error()}
+						r.Viol = explore.CrashViol(err)
 					} else {
 						json.Unmarshal(b, &r)
 					}
